@@ -6,7 +6,7 @@ func init() {
 	registerProp(&Property{
 		ID: "C01", Kind: "necessary structural clauses",
 		Tech:  "effect summaries + CFG/SSA lints (iterator invalidation, shift bounds, normaliser order, recursion guards, iteration caps, inverse pairs)",
-		Rules: []string{"LANG-0", "ITER-1", "SHIFT-1", "ORD-4", "REC-1", "PROG-1", "CAP-1", "EFF-2", "ORD-2", "POST-1", "ACYC-1"},
+		Rules: []string{"LANG-0", "ITER-1", "SHIFT-1", "ORD-4", "REC-1", "PROG-1", "CAP-1", "EFF-2", "ORD-2", "POST-1", "ACYC-1", "SPLIT-1"},
 		Explanation: "Panic-freedom and termination of network simplex, weighted median, the compaction algorithms, the funnel and the spline fitter quantify over run-time values; no sound bound is in reach, so the check decides necessary clauses that are visible in the shape of the code: " +
 			"ITER-1 no loop removes the element it is visiting from the adjacency/edge list it iterates (skipped edges left the graph cyclic -> 'still cyclic' panic); SHIFT-1 no unbounded shift (layer masks collapsed at 64 layers -> matrix index panic); " +
 			"ORD-4 layers stay >= 0 after normalisation (negative layers index the layer slice); REC-1 every recursive traversal has a mark-and-test guard or a reviewed termination argument; PROG-1 the flag-guarded fix-point of the default positioner repeats only after strictly increasing a coordinate; CAP-1 the two documented iteration caps exist and depend on their options; " +
@@ -17,10 +17,10 @@ func init() {
 	registerProp(&Property{
 		ID: "C02", Kind: "necessary structural clauses",
 		Tech:  "dominance/ordering rules on Layout, effect-contract checks (Reverse involution, inverse pairs), field-ownership table, typed-AST output mapping",
-		Rules: []string{"ORD-2", "ORD-3", "EFF-1", "EFF-2", "PAIR-2", "PAIR-3", "OWN-1", "SPLIT-1", "POP-1"},
+		Rules: []string{"ORD-2", "ORD-3", "EFF-1", "EFF-2", "PAIR-2", "PAIR-3", "OWN-1", "SPLIT-1", "POP-1", "OPTS-1", "GLOB-1"},
 		Explanation: "Decides the undo structure and the output mapping, not the multiset equality itself: ORD-2 restore and un-reverse happen after the pipeline and before collection; EFF-1 Reverse is an involution on direction/flag/adjacency; EFF-2 fragments and self-loops: every add has its remove; " +
 			"PAIR-2 un-reverse exactly the flagged edges; PAIR-3 ID/direction/size copied from the right fields, helper nodes filtered unless requested, no other node or edge dropped; OWN-1 Edge.Points written only by routers (which never see self-loops), Node.W/H written only by the two option closures, IsVirtual/ID only at construction; " +
-			"ORD-3 fixed size first, per-node override second and only for listed nodes; SPLIT-1 the component traversal records every node and edge it reaches; POP-1 every row of the source becomes an edge (no row is skipped or folded into another). Not decided: that break/merge are exact inverses on every chain (the count of edges).",
+			"ORD-3 fixed size first, per-node override second and only for listed nodes; SPLIT-1 the component traversal records every node and edge it reaches; POP-1 every row of the source becomes an edge (no row is skipped or folded into another); OPTS-1 + GLOB-1 the sizes are the ones configured for this call: each size option stores its own argument into the record, and the record starts from defaults that no earlier call can have written (the default options hold no pointer into shared storage). Not decided: that break/merge are exact inverses on every chain (the count of edges).",
 		Assumptions: []string{"clauses are necessary, not sufficient"},
 	})
 	registerProp(&Property{
